@@ -81,7 +81,10 @@ def main():
                 kwargs['block'] = tuple([tuple(bl[0]), tuple(bl[1])] + list(bl[2:]))
             if isinstance(kwargs.get('psi'), dict):
                 p = kwargs['psi']
-                kwargs['psi'] = tuple(p['v']) if p['form'] == 'tuple' else list(p['v'])
+                if p['form'] == 'npint':
+                    kwargs['psi'] = int(p['v'][0])       # no NumPy in this interpreter
+                else:
+                    kwargs['psi'] = tuple(p['v']) if p['form'] in ('tuple', 'nptuple') else list(p['v'])
             reps = int(req.get('repeat', 1))
             v = fn(*args, **kwargs)
             if reps > 1:
@@ -112,7 +115,7 @@ def main():
 
         def enc(o):
             if isinstance(o, float) and (math.isinf(o) or math.isnan(o)):
-                return repr(o)
+                return repr(float(o))     # float(): numpy scalars print as np.float64(inf)
             if isinstance(o, (list, tuple)):
                 return [enc(x) for x in o]
             if isinstance(o, dict):
